@@ -561,8 +561,17 @@ def _g2(ctx: Context) -> None:
             continue
         t = T.of(cfg, n, n.exprs[0])
         # (a) len(F) > n0
-        if t[0] == "cmp" and len(t[1]) == 1 and t[1][0] in ("Gt", "Lt"):
-            big, small = (t[2][0], t[2][1]) if t[1][0] == "Gt" else (t[2][1], t[2][0])
+        if t[0] == "cmp" and len(t[1]) == 1 and t[1][0] in ("GtE", "LtE") and len(t[2]) == 2:
+            # integers: `a >= b + 1` is `a > b`, `b + 1 <= a` is `b < a`
+            gi = 1 if t[1][0] == "GtE" else 0
+            g_ = t[2][gi]
+            if g_[0] == "add" and len(g_[1]) == 2 and ("const", 1) in g_[1]:
+                other_ = [p_ for p_ in g_[1] if p_ != ("const", 1)][0]
+                t = ("cmp", ("Gt",) if t[1][0] == "GtE" else ("Lt",), (t[2][0], other_) if gi == 1 else (other_, t[2][1]))
+        if t[0] == "cmp" and len(t[1]) == 1 and t[1][0] in ("Gt", "Lt", "LtE", "GtE"):
+            # `a > b` [true], `b < a` [true], `a <= b` [false], `b >= a` [false] all say a > b
+            big, small = (t[2][0], t[2][1]) if t[1][0] in ("Gt", "LtE") else (t[2][1], t[2][0])
+            lab_a = "T" if t[1][0] in ("Gt", "Lt") else "F"
             sb, ss = _len_of_attr(big, hm.F), _len_of_attr(small, hm.F)
             if sb is not None and ss is not None and sb != ss:
                 cur, sam = _site_nodes(ctx, cfg, sb), _site_nodes(ctx, cfg, ss)
@@ -588,7 +597,7 @@ def _g2(ctx: Context) -> None:
                     cfg.render_path(early or late or []),
                 )
                 if good:
-                    gate_a += ctx.edges(cfg, n, "T")
+                    gate_a += ctx.edges(cfg, n, lab_a)
         # (b') the same question asked by an explicit loop: `for host in self.hosts: if <pred(host)>: <yes>` - the
         #      outcome `pred holds` of that test, for the predicate _get_connect_hosts filters with, is an untried address
         if t[0] == "cmp" and len(t[1]) == 1 and t[1][0] in ("NotIn", "In") and any(s_[0] in ("each", "iter") and len(s_) == 2 and _self_attr(s_[1]) == hm.H for s_ in subterms(t)):
@@ -604,11 +613,18 @@ def _g2(ctx: Context) -> None:
             as_notin = _as_comp(t) if t[1][0] == "NotIn" else ("cmp", ("NotIn",), _as_comp(t)[2])
             if _canon(as_notin) == hm.pred:
                 gate_b += ctx.edges(cfg, n, "T" if t[1][0] == "NotIn" else "F")
-        # (b) any(normalised host not in F for host in self.hosts)
-        if t[0] == "call" and t[1] == ("glob", "any") and len(t[2]) == 1 and not t[3] and t[2][0][0] == "comp":
+        # (b) any(normalised host not in F for host in self.hosts) [true]; the same question asked the other way round,
+        #     all(normalised host in F ..) / F.issuperset(..) [false]
+        if t[0] == "call" and t[1] in (("glob", "any"), ("glob", "all")) and len(t[2]) == 1 and not t[3] and t[2][0][0] == "comp":
             comp = t[2][0]
+            is_all = t[1] == ("glob", "all")
             if len(comp[3]) == 1 and _self_attr(comp[3][0][1]) == hm.H and not comp[3][0][2]:
-                same = _canon(comp[2]) == hm.pred
+                elt_ = comp[2]
+                if is_all and elt_[0] == "cmp" and elt_[1] == ("In",):
+                    elt_ = ("cmp", ("NotIn",), elt_[2])  # all(x in F) is false exactly when any(x not in F) is true
+                elif is_all:
+                    continue
+                same = _canon(elt_) == hm.pred
                 ck.check(
                     "C10.G2",
                     same,
@@ -619,7 +635,7 @@ def _g2(ctx: Context) -> None:
                     ctx.loc(f, n),
                 )
                 if same:
-                    gate_b += ctx.edges(cfg, n, "T")
+                    gate_b += ctx.edges(cfg, n, "F" if is_all else "T")
     for gid, edges, what in (
         ("new-failed-host", gate_a, "`len(failed hosts) > count sampled before the attempt` [true]"),
         ("untried-host-left", gate_b, "`any(host not in failed hosts)` [true]"),
